@@ -236,6 +236,27 @@ def _bind(chk, drv, dbdir, asis, filt, kf_dup, kf_stale, menu, qmenu, filters, g
             nseq += 1
     chk.add(retention_sequences=nseq)
 
+    # ---- 2b''. idle_since is a column that only some writers touch: every sequence of (upsert idle / not idle,
+    #          update_handler_status keep / set / clear) on two handlers, each followed by the is_idle=True and
+    #          is_idle=False queries, then a delete of the idle ones; both stores (and the pair comparison)
+    nidle = 0
+    ialpha = [{"op": "upsert", "id": i, "wf": "wa", "st": "running", "hr": "T", "idle": v} for i in ("h1", "h2") for v in ("T", "F")] + \
+             [{"op": "update", "id": i, "st": "running", "io": io} for i in ("h1", "h2") for io in ("set", "clear", "keep")]
+    qT, qF = dict(drv.NOFILTER, idle="T"), dict(drv.NOFILTER, idle="F")
+    for seq in itertools.product(ialpha, repeat=chk.pick(3, 4)):
+        if seq[0]["op"] != "upsert" or not any(o["op"] == "update" and o["io"] != "keep" for o in seq) \
+                and len({(o["id"], o["idle"]) for o in seq if o["op"] == "upsert"}) < 2:
+            continue
+        ops = []
+        for o in seq:
+            ops += [dict(o), {"op": "query", "f": qT}, {"op": "query", "f": qF}]
+        ops += [{"op": "delete", "k": 6, "f": menu[5]}, {"op": "query", "f": everything}]       # Menu[6]: is_idle=True
+        evs = add_history("sqlite", -1, ops, "idle_sequences")
+        evm = add_history("memory", -1, ops, "idle_sequences")
+        traces.append({"kind": "pair", "a": evm, "b": evs})
+        nidle += 1
+    chk.add(idle_sequences=nidle)
+
     # ---- 2c. contents x every filter combination: every single-handler contents enumerated by TLC, plus every
     #          multi-handler contents that occurs in the history graph; both stores
     ncont = 0
